@@ -51,6 +51,7 @@ type protoMon struct {
 	silAfterLO     int  // silence periods since then: the test-request timer of the ended logon may have fired
 	evs            map[string]*protoEvent
 	lastSeq        int
+	ended          bool
 }
 
 func (m *protoMon) Key() string {
@@ -112,14 +113,17 @@ func (m *protoMon) step(w *world, ev event, outs []outMsg) (string, string) {
 	case in != nil && in.Type == "5" && in.Valid && (before == 'L' || before == 'O'):
 		m.state = 'W'
 	}
+	if w.runDone || w.ctxDone {
+		m.ended = true // (the silent-peer rule or a stop has ended the session: what is fed to it afterwards is not processed)
+	}
 	if m.role == "acc" && m.prop == "C06" {
-		if in != nil && in.Type == "A" && before == 'W' && in.Acceptable {
+		if in != nil && in.Type == "A" && before == 'W' && in.Acceptable && !m.ended {
 			m.ids = [2]string{w.self, w.peer}
 			if in.OtherIDs {
 				m.ids = [2]string{"DESK", "OTHER"}
 			}
 		}
-		if m.ids[0] != "" && (before == 'L' || before == 'O' || m.state == 'L') && !(in != nil && in.Type == "2") { // (retransmissions keep the identifiers they were first sent with)
+		if m.ids[0] != "" && (before == 'L' || before == 'O' || m.state == 'L') && !(in != nil && in.Type == "2") && !w.runDone && !w.ctxDone && !m.ended { // (retransmissions keep the identifiers they were first sent with)
 			for _, o := range outs {
 				snd, _ := get(o.Msg, "49")
 				tgt, _ := get(o.Msg, "56")
